@@ -421,7 +421,7 @@ def main():
         if rng.random() < 0.5:
             # the router announces the number of this network: once with a wrong number (a corrupted octet, a misconfigured
             # second router), then with the right one - the device learns, and learns better
-            nets = rng.choice([(6, 5), (5, 6, 5), (5,), (5, 5), (1, 2, 3)])
+            nets = rng.choice([(6, 5), (5, 6, 5), (5,), (5, 5), (1, 2, 3), (7, 5), (7, 5, 5), (7, 6, 5)])
             garbage = [(rng.choice([INJ, INJ2]), W.npci_build({"net_message": 0x13, "payload": bytes([n >> 8, n & 0xFF, rng.choice([0, 1])])}), "broadcast")
                        for n in nets] + garbage
             run.count("batches_with_network_number_announcements")
